@@ -537,6 +537,36 @@ func CheckC07(e *Env) int {
 			rep.Held(fam + ";" + pr.P.Feat["cell"])
 		}
 	}
+	// programs that are REFUSED for another reason (a provider removed: below a struct whose field
+	// is selected, below a binding, anywhere) must be refused quickly too: the planner runs on
+	// after the first failure and has to remember what it could not build
+	var rprogs []*Program
+	for i, p := range genPool(e, "c7r", e.tierN(30, 300), func(i int, o *GenOpts) {
+		o.NInj = 1
+		o.MinNodes, o.MaxNodes = 4+i%5, 8+i%9
+		o.Kinds = []string{"func", "func", "parent", "parent", "struct", "bind", "value", "arg"}
+	}) {
+		for _, rc := range removalMutants(p, p.ID, 3, Rng(e.Seed, "c7rm", i)) {
+			rprogs = append(rprogs, rc.P)
+		}
+	}
+	for _, pr := range RunPool(e, rprogs, PoolOpts{Name: "c07r", BatchSize: 64, AlsoCheck: true, ExtraEnv: []string{"VERIF_STEP_CAP=2000"}}) {
+		switch {
+		case pr.PreBad != "":
+			rep.Incon = append(rep.Incon, "harness: "+pr.P.ID+": "+firstLine(pr.PreBad))
+		case pr.Incon != "":
+			rep.Incon = append(rep.Incon, pr.P.ID+": "+pr.Incon)
+		case pr.Crash != "":
+			clause := "crash"
+			if strings.Contains(pr.Crash, "VERIF-STEP-CAP") {
+				clause = "step cap exceeded: analysis of a program with a missing provider did not terminate within its budget"
+			}
+			rep.Violate(pr.P.ID, Issue{Prop: "C07", Clause: clause, Witness: pr.Crash, Sig: "C07:" + clause + ":refused-programs"}, pr.P.Files(false), map[string]string{"wire_stderr.txt": pr.GenStderr})
+		default:
+			rep.Count("refused_programs_terminated", 1)
+			rep.Held("refused-for-a-missing-provider;" + ProgSig(pr.P))
+		}
+	}
 	// structured scaling families, one wire invocation each, with hook step counts
 	scaling(e, rep)
 	// an erroneous set below a lattice of set inclusions: the report must not repeat per path
